@@ -377,12 +377,23 @@ type Link struct {
 	stall   [2]bool // writes in this direction block (the peer is alive but not reading and the buffers are full)
 	werr    [2]bool // writes in this direction fail (the sender's half of the connection is broken) while nobody is told
 	eof     [2]bool // the reader of this direction sees end-of-file once it has drained what was sent; the other direction lives on
+	thr     [2]throttle
 	closed  [2]bool // local Close called on client(0) / server(1) end
 	dl      [2]time.Time
 	dlTimer [2]*time.Timer
 
 	Client *Conn
 	Server *Conn
+}
+
+// throttle is the bandwidth limit of one direction: the reader receives at most chunk bytes per
+// period of (virtual) time, counted from the moment the limit was set.
+type throttle struct {
+	chunk int
+	every time.Duration
+	t0    time.Duration
+	used  int
+	timer *time.Timer
 }
 
 // WriteRec is one Write call as seen on the wire log.
@@ -474,7 +485,36 @@ func (c *Conn) Read(p []byte) (int, error) {
 			return 0, net.ErrClosed
 		}
 		if len(lk.q[d]) > 0 {
-			n := copy(p, lk.q[d])
+			avail := len(lk.q[d])
+			if th := &lk.thr[d]; th.chunk > 0 {
+				now := lk.n.hooks.Now()
+				allowed := th.chunk*(1+int((now-th.t0)/th.every)) - th.used
+				if allowed <= 0 {
+					// nothing more in this period: wake up when the next one starts
+					if !lk.dl[c.end].IsZero() && !time.Now().Before(lk.dl[c.end]) {
+						return 0, os.ErrDeadlineExceeded
+					}
+					if th.timer == nil {
+						wait := th.every - (now-th.t0)%th.every
+						th.timer = time.AfterFunc(wait, func() {
+							lk.mu.Lock()
+							lk.thr[d].timer = nil
+							lk.cond.Broadcast()
+							lk.mu.Unlock()
+						})
+					}
+					lk.cond.Wait()
+					continue
+				}
+				if avail > allowed {
+					avail = allowed
+				}
+				if avail > len(p) {
+					avail = len(p)
+				}
+				th.used += avail
+			}
+			n := copy(p, lk.q[d][:avail])
 			lk.q[d] = lk.q[d][n:]
 			return n, nil
 		}
@@ -751,6 +791,15 @@ func (lk *Link) BreakWrites(d Dir) {
 func (lk *Link) HalfClose(d Dir) {
 	lk.mu.Lock()
 	lk.eof[d] = true
+	lk.cond.Broadcast()
+	lk.mu.Unlock()
+}
+
+// Throttle limits direction d to chunk bytes per period from now on: a slow but steady link.
+// Bytes written are queued as usual; the reader is handed at most chunk bytes per period.
+func (lk *Link) Throttle(d Dir, chunk int, every time.Duration) {
+	lk.mu.Lock()
+	lk.thr[d] = throttle{chunk: chunk, every: every, t0: lk.n.hooks.Now()}
 	lk.cond.Broadcast()
 	lk.mu.Unlock()
 }
